@@ -55,6 +55,11 @@ def cases(tier, seed):
     for j in range(60 if tier == "quick" else 3000):
         out.append({"kind": "aba", "exact": True, "s": int(rng.integers(1 << 30)), "cell": ["ortho_big", "tri_big"][j % 2],
                     "pattern": ["asym4", "chiral4", "asym6", "twofold", "pair_hetero", "collinear3"][j % 6], "atol": 0.05})
+    # sites that share a node atom: the search pattern is one arm (leaf atom first, then the centre) of the planted unit, so the
+    # occurrences of one unit all end on the same centre atom, which both patterns keep; units straddle the cell faces
+    for j in range(60 if tier == "quick" else 4000):
+        out.append({"kind": "aba", "shared_node": True, "s": int(rng.integers(1 << 30)), "cell": [c for c in planted.CELL_CLASSES if not c.endswith("minimal")][j % (len(planted.CELL_CLASSES) - 2)],
+                    "pattern": ["twofold", "planar_d3h", "pyramid_c3v"][j % 3], "atol": [0.05, 0.1, 0.01][(j // 3) % 3]})
     reps = 1 if tier == "quick" else 8
     for r in range(reps):
         for c in real_cases():
@@ -146,7 +151,16 @@ def multiset(a):
     return [(e, np.asarray(p, float)) for e, p in zip(a.elements, a.positions)]
 
 
-def check_aba(ctx, st, S, A, B, patA, patB, atol, seed, w, tol, fraction=1.0, sample="real", grown=False):
+def _overlap(found, kept=()):
+    """do occurrences share atoms - other than the ones at the pattern places `kept`, which both patterns have and no replacement touches"""
+    if not kept:
+        return replcase.matches_overlap(found)
+    repl = [[int(i) for k, i in enumerate(m) if k not in kept] for m in found]
+    held = {int(m[k]) for m in found for k in kept}
+    return replcase.matches_overlap(repl) or bool(held & {i for m in repl for i in m})
+
+
+def check_aba(ctx, st, S, A, B, patA, patB, atol, seed, w, tol, fraction=1.0, sample="real", grown=False, kept=()):
     """A->B->A restores the multiset; after A->B no A is found"""
     import mofun
     if any(e in set(S.elements) for e in set(patB["elements"]) - set(patA["elements"])):
@@ -155,14 +169,16 @@ def check_aba(ctx, st, S, A, B, patA, patB, atol, seed, w, tol, fraction=1.0, sa
     events.SCHEDULE["sample"] = sample
     o1 = replcase.observe_replace(S, A, B, seed, atol=atol, **({} if fraction >= 1.0 else {"replace_fraction": fraction}))
     st.count("two_step_histories")
-    if o1["found"] is not None and replcase.matches_overlap(o1["found"]):
+    if o1["found"] is not None and _overlap(o1["found"], kept):
         st.count("not_judged")          # occurrences that share atoms: substituting one destroys its neighbours
         return 0
+    if kept and o1["found"] is not None and replcase.matches_overlap(o1["found"]):
+        st.count("two_step_histories_whose_occurrences_share_an_atom_both_patterns_keep")
     if fraction < 1.0 and o1["selected"] is not None:
         # only the selected sites were substituted
         o1 = dict(o1, found=[o1["found"][k] for k in o1["selected"]], all_found=o1["found"])
         st.count("partial_two_step_histories")
-    if o1["found"] is None or o1["exception"] is not None or replcase.matches_overlap(o1["found"]) or not o1["found"]:
+    if o1["found"] is None or o1["exception"] is not None or _overlap(o1["found"], kept) or not o1["found"]:
         st.count("not_judged")
         return 0
     if len(patA["elements"]) >= 2 and len(S) <= 400:
@@ -186,7 +202,7 @@ def check_aba(ctx, st, S, A, B, patA, patB, atol, seed, w, tol, fraction=1.0, sa
         ctx.fail("after replacing all %d occurrences of A by B a new search still finds A at %s" % (len(o1["found"]), [tuple(int(i) for i in m) for m in left][:3]), witness=w)
     st.count("refind_checked")
     o2 = replcase.observe_replace(S1, B, A, seed + 1, atol=atol)
-    if grown and o2["found"] is not None and replcase.matches_overlap(o2["found"]):
+    if grown and o2["found"] is not None and _overlap(o2["found"], kept):
         # the atom B adds beyond A landed within the tolerance of where a neighbouring copy's added atom is expected: the
         # intermediate structure then holds occurrences of B that share atoms, which no replacement can serve (as for A above)
         st.count("not_judged_added_atoms_of_neighbouring_copies_within_tolerance")
@@ -311,13 +327,19 @@ def run_case(case, ctx):
                     sh[ax] = (1.0 - float(rng.uniform(3e-6, 9e-6))) - fr[ax]
                     S.positions = G.wrap(cellm, np.asarray(S.positions, float) + sh.dot(cellm))
                     st.count("two_step_histories_with_the_substituted_atom_just_inside_a_far_face")
-            B = substituted(pat, rng, first=bool(case.get("exact")) and (case["s"] % 2 == 0 or bool(near_face)))
+            kept = ()
+            if case.get("shared_node"):
+                pat = {"cls": pat["cls"] + "/arm", "elements": [pat["elements"][1], pat["elements"][0]], "positions": np.array([pat["positions"][1], pat["positions"][0]], float),
+                       "continuous_symmetry": "line"}
+                w["pattern_class"] = pat["cls"]
+                kept = (1,)
+            B = substituted(pat, rng, first=bool(case.get("exact")) and (case["s"] % 2 == 0 or bool(near_face)) or bool(kept))
             if case.get("exact"):
                 st.count("two_step_histories_on_exact_copies_far_from_the_origin")
             if B is None:
                 st.count("not_judged")
                 return
-            if case["s"] % 2 == 0 and len(pat["elements"]) >= 2:
+            if case["s"] % 2 == 0 and len(pat["elements"]) >= 2 and not kept:
                 # B larger than A: the substituted atom carries one more atom further out (C-H -> C-O-H), so B reaches beyond A
                 j = [i for i, (x, y) in enumerate(zip(pat["elements"], B["elements"])) if x != y][0]
                 pp = np.asarray(B["positions"], float)
@@ -331,7 +353,7 @@ def run_case(case, ctx):
                         st.count("two_step_histories_with_a_larger_B")
             tol = 1e-6 if len(pat["elements"]) == 1 else 2 * c05.bound(atol, pat["positions"], B["positions"])
             frac = [1.0, 0.5, 0.67][(case["s"] // 7) % 3]
-            n = check_aba(ctx, st, S, patterns.to_atoms(pat), patterns.to_atoms(B), pat, B, atol, case["s"], w, tol, fraction=frac, sample=["reversed", "real"][case["s"] % 2], grown=len(B["elements"]) > len(pat["elements"]))
+            n = check_aba(ctx, st, S, patterns.to_atoms(pat), patterns.to_atoms(B), pat, B, atol, case["s"], w, tol, fraction=frac, sample=["reversed", "real"][case["s"] % 2], grown=len(B["elements"]) > len(pat["elements"]), kept=kept)
         st.seen("synthetic_kind", kind)
         st.seen("cell_class", case["cell"])
         if n:
@@ -362,6 +384,8 @@ def run_case(case, ctx):
 
 def requirements(stats, tier):
     need = []
+    if stats.get("two_step_histories_whose_occurrences_share_an_atom_both_patterns_keep") < (15 if tier == "quick" else 1000):
+        need.append("two-step histories whose occurrences share a kept atom: %d" % stats.get("two_step_histories_whose_occurrences_share_an_atom_both_patterns_keep"))
     if stats.get("self_replacements") < (100 if tier == "quick" else 12000) or stats.get("restorations_checked") < (100 if tier == "quick" else 12000):
         need.append("self replacements %d, restorations %d" % (stats.get("self_replacements"), stats.get("restorations_checked")))
     if stats.get("self_replacements_with_several_terms_over_the_same_atoms") < (5 if tier == "quick" else 1000):
